@@ -272,6 +272,86 @@ RELATED = {"Handle": ["HandleId", "Raise"], "ExpressionType": ["Match", "Handle"
            "DocStr": [], "With": [], "IsNA": [], "Pass": ["Pass"]}
 
 
+ASSIGN_OPS = {"Assign": ("=", "x := 3", "3"), "Add": ("+=", "x += 3", "10"), "Sub": ("-=", "x -= 3", "4"), "Mul": ("*=", "x *= 3", "21"),
+              "Div": ("/=", None, None), "Pow": ("**=", "x ^= 2", "49"), "BLShift": ("<<=", "x <<= 2", "28"), "BRShift": (">>=", "x >>= 1", "3")}
+
+
+def assign_family(rp, only=None):
+    bad, n = [], 0
+    for k, (_py, stmt, want) in ASSIGN_OPS.items():
+        if stmt is None or (only and k not in only):
+            continue
+        n += 1
+        src = f"def x: Int := 7\n{stmt}\nprint(x)"
+        st, out = rp.transpile(src)
+        if st != "OK":
+            bad.append({"role": k, "src": src, "why": f"{st}: {out[:120]}"})
+            continue
+        rc, so, se = py_run(out)
+        if rc != 0 or so.strip() != want:
+            bad.append({"role": k, "src": src, "why": f"emitted {out.strip()!r} prints {so.strip()!r} (rc={rc}), documented meaning gives {want}"})
+    return n, bad
+
+
+def ob_assign_ops(run, mir, rp):
+    ob = run.ob("assignment-operator-table", "E2+E3+z3", "CoreOp::try_from maps every (compound) assignment operator to the Core operator "
+                "that Display prints as the Python operator of the same meaning; any other operator is an error", ["CoreOp::try_from", "Display for CoreOp"])
+    try:
+        NODE_RS = "src/generate/ast/node.rs"
+        fn = e2.find1(mir, file=NODE_RS, impl="TryFrom<(&ASTTy, &NodeOp)> for CoreOp", name="try_from")
+        src = common.read_repo(NODE_RS)
+        m = re.search(r"impl Display for CoreOp \{(.*?)\n\}\n", src, re.S)
+        if not m:
+            raise Unsupported("Display for CoreOp not found")
+        shown = dict(re.findall(r"CoreOp::(\w+)\s*=>\s*\"([^\"]*)\"", m.group(1)))
+        ex = Exec(mir, max_paths=2000)
+        nodeops = ex.enum_variants("NodeOp")
+        got = {}
+        for k in nodeops:
+            st = State()
+            astr = Ref(ex.new_cell(st, Opq(z3.Const("ast", Val), "ASTTy")))
+            opr = Ref(ex.new_cell(st, Agg("NodeOp", k, [])))
+            ends = e2.run_kernel(run, ex, fn, [Agg("tuple", None, [astr, opr])], st)
+            rets = [p for p in ends if p.kind == "return"]
+            if len(rets) != 1:
+                raise Unsupported(f"{k}: {len(rets)} return paths")
+            r = rets[0].ret
+            if isinstance(r, Agg) and r.variant == "Ok" and isinstance(r.fields[0], Agg):
+                got[k] = shown.get(r.fields[0].variant, "?" + r.fields[0].variant)
+            else:
+                got[k] = None
+        texts = sorted({v[0] for v in ASSIGN_OPS.values()} | {g for g in got.values() if g} | {"<err>"})
+        kv = z3.Int("node_op")
+        g, w = z3.IntVal(-1), z3.IntVal(-1)
+        for k in nodeops:
+            g = z3.If(kv == nodeops.index(k), z3.IntVal(texts.index(got[k] or "<err>")), g)
+            w = z3.If(kv == nodeops.index(k), z3.IntVal(texts.index(ASSIGN_OPS[k][0] if k in ASSIGN_OPS else "<err>")), w)
+        dom = z3.And(kv >= 0, kv < len(nodeops))
+        found, block = [], []
+        for _ in range(len(nodeops) + 1):
+            r_, m_, dt, _s = e2.solve(ex, [dom, g != w] + block)
+            ob.solver_s += dt
+            ob.queries += 1
+            if r_ != z3.sat:
+                break
+            ki = m_.eval(kv).as_long()
+            found.append(nodeops[ki])
+            block.append(kv != ki)
+        ob.reach = "sat"
+        run.samples.append({"obligation": ob.id, "table": got})
+        if not found:
+            ob.discharged(f"unsat over {len(nodeops)} operators")
+        else:
+            n, bad = assign_family(rp, only=set(found))
+            if bad:
+                ob.violated(f"assignment-operator:{bad[0]['role']}", {"operators": found, "table": {k: got[k] for k in found}}, bad[0],
+                            f"{bad[0]['src']!r}: {bad[0]['why']}")
+            else:
+                ob.inconclusive(f"solver reports {found} as mis-translated ({ {k: got[k] for k in found} }) but the replay programs behave as documented")
+    except Unsupported as e:
+        ob.inconclusive(str(e))
+
+
 def ob_structure(run, mir, rp, only_fns=None):
     """Every arm of the typed-AST -> Core converters builds the documented Core shape from the conversions of its children."""
     groups = {}
@@ -604,6 +684,7 @@ def run(run):
     ob_tail_distribution(run, mir, rp)
 
     ob_structure(run, mir, rp)
+    ob_assign_ops(run, mir, rp)
     # grouping is meaning: the printer's parenthesisation decision (the C10 obligations) is part of this property too
     try:
         from props import C10
@@ -616,8 +697,9 @@ def run(run):
         n2, b2 = range_family(rp)
         n3, b3 = ret_family(rp)
         n4, b4 = structure_family(rp)
-        b2 = b2 + b3 + b4
-        run.validated += n1 + n2 + n3 + n4
+        n5, b5 = assign_family(rp)
+        b2 = b2 + b3 + b4 + b5
+        run.validated += n1 + n2 + n3 + n4 + n5
         if b1 or b2:
             run.ob("family-operators", "native", "replay programs behave as documented").inconclusive(str((b1 + b2)[:2])[:600])
     rp.close()
